@@ -203,6 +203,34 @@ def c09_case(args):
     return {"idx": idx, "an": an, "dist": dist, "req": req, "ntexts": len(texts), "zone_meta": zone_meta}
 
 
+def replay(ctx, proj, findings):
+    """--replay f: re-execute exactly the stored case on the current tree and on the model."""
+    rj = json.loads(open(ctx.replay).read())
+    case = rj["case"]
+    if "schema_text" not in case:
+        raise vlib.Infra("replay file has no schema/instance case (tie-broken replays name theorems, not inputs)")
+    wd = H.Workdir("c09r")
+    try:
+        name = case["schema"]
+        wd.add_schema_text(name, case["schema_text"])
+        wd.enter()
+        ctx.case(case)
+        r = c09_case((name, case["schema_text"], H.to_tuples(case["tree"]), [tuple(x) for x in case.get("meta", [])],
+                      case.get("respellings", list(range(len(H.RESPELLINGS)))), True, 0))
+        for kind, why in r.get("an", []):
+            if r.get("zone_meta") and "F42" in findings and (kind == "canonical" or (kind == "respell-parse" and why.startswith("canonical"))):
+                ctx.known_hits["F42"] = ctx.known_hits.get("F42", 0) + 1
+                continue
+            ctx.failures.append({"case": case, "why": why, "why_class": kind})
+        drv = proj.driver()
+        for (rq, impl) in (r.get("req") or []):
+            rep = drv.batch([rq])[0]
+            if "unsupported" not in rep and rep["errs"] != impl:
+                ctx.corr_disagreements.append({"case": case, "model": rep["errs"], "impl": impl, "view": "ordered list of (code, field_path)"})
+    finally:
+        wd.leave()
+
+
 def run(ctx: vlib.Ctx):
     ctx.rule = ("case = (schema, instance tree); each case is observed through T0, k respellings, canonical, canonical-of-canonical x "
                 "{Validator API strict/non-strict, octave_validate x 4 profiles, octave_write lenient/strict dry-run, CLI (thorough)}; "
@@ -214,13 +242,15 @@ def run(ctx: vlib.Ctx):
         ctx.widen = max(ctx.widen, 8)
         ctx.notes.append("fingerprint of a modelled function changed: search widened")
     findings = {f["id"]: f for f in vlib.load_findings(ctx.prop)}
+    if ctx.replay:
+        return replay(ctx, proj, findings)
     drv = proj.driver()
     rng = ctx.rng
     wide = ctx.thorough or ctx.widen > 1
     wd = H.Workdir("c09")
     try:
         specs = [H.schema_spec(s) for s in H.HAND_SCHEMAS]
-        for i in range(ctx.budget(4, 12)):
+        for i in range(ctx.budget(4, 10)):
             specs.append(H.schema_spec(H.random_schema(rng, i)))
         texts = {s["name"]: wd.add_schema(s) for s in specs}
         wd.enter()
@@ -238,16 +268,16 @@ def run(ctx: vlib.Ctx):
             metas = [[("TYPE", "X"), ("VERSION", "1")], [("TYPE", "X")], [("TYPE", "X"), ("VERSION", "1"), ("STATUS", "active"), ("EXTRA", "y")], []]
             for fname, fd in sd.fields.items():
                 vals = [v for v in H.field_value_pool(fd, api=False) if H.text_safe(v)]
-                k = len(vals) if (wide and name in hand_names) else ctx.budget(5, 10)
+                k = min(len(vals), 30) if (wide and name in hand_names) else ctx.budget(5, 8)
                 for v in (vals if k >= len(vals) else rng.sample(vals, k)):
                     cases.append((name, H.doc_one_field(sd, fname, v, nested=rng.random() < 0.3, second_block=rng.random() < 0.15), rng.choice(metas)))
-            for _ in range(ctx.budget(12, 60) if name in hand_names else ctx.budget(4, 12)):
+            for _ in range(ctx.budget(12, 50) if name in hand_names else ctx.budget(4, 10)):
                 t = H.random_doc(rng, sd, api=False)
                 if H.tree_text_safe(t):
                     cases.append((name, t, rng.choice(metas)))
         jobs = []
         for i, (name, tree, meta) in enumerate(cases):
-            nresp = 6 if wide else 4
+            nresp = 5 if wide else 4
             ids = sorted(rng.sample(range(len(H.RESPELLINGS)), nresp))
             with_cli = wide and rng.random() < 0.04
             jobs.append((name, texts[name], tree, meta, ids, with_cli, i))
